@@ -1,27 +1,946 @@
-//! probe stage
+//! C14 — date arithmetic: correspondence stream + model-independent property oracle.
+//!
+//! Generates date literals in every pattern of `core/datepatterns.txt`, durations in every time
+//! unit, and the query forms `#d# + t`, `#d# - t`, `(#d# + t) - #d#`, `#d# - t + t`, `#d# + t - t`,
+//! `#d1# - #d2#`, `#d# -> +HH:MM`, `#d# -> "Zone/Name"`; evaluates each on the real code in-process
+//! under `catch_unwind` and writes
+//!   req.txt      request lines for `rinkmodel dates` (see lean/Rink/Driver/Dates.lean)
+//!   impl.txt     the implementation's canonical answers (`date <ns> <off|zone>`, `dur n/d`,
+//!                `ns <int>`, `err`, `panic`, …), aligned with req.txt
+//!   oracle.jsonl property violations found on the implementation, judged by an independent
+//!                calendar (Hinnant's days-from-civil), exact rational arithmetic and chrono-tz
+//!                for zone offsets — never by the Lean model
+//!   stats.json   counts and samples
+//! Other modes: `--query TEXT [--tz NAME]` prints the canonical answer of one query (replay).
 #[path = "../util.rs"]
 mod util;
 #[path = "../evalsess.rs"]
 mod evalsess;
 
-use rink_core::output::QueryReply;
-use std::io::BufRead;
+use chrono::{LocalResult, NaiveDate, Offset, TimeZone};
+use chrono_tz::Tz;
+use num_bigint::BigInt;
+use num_rational::BigRational;
+use num_traits::{One, Signed, ToPrimitive, Zero};
+use rink_core::output::{DateReply, QueryError, QueryReply};
+use rink_core::types::{BaseUnit, Dimensionality, Number, Numeric};
+use rink_core::Context;
+use serde_json::json;
+use std::io::Write;
+use std::str::FromStr;
+use util::{hex, Opts, Rng};
+
+type R = BigRational;
+
+const NOW: i64 = 1_700_000_000; // evalsess::new_context pins the clock here (2023-11-14T22:13:20Z)
+const NS: i128 = 1_000_000_000;
+const MAX_SECS: i64 = 9_223_372_036_854_775; // i64::MAX / 1000, the documented maximum
+
+// ------------------------------------------------------------------ independent calendar
+fn days_from_civil(y: i64, m: i64, d: i64) -> i64 {
+    let y = if m <= 2 { y - 1 } else { y };
+    let era = y.div_euclid(400);
+    let yoe = y.rem_euclid(400);
+    let mp = (m + 9) % 12;
+    let doy = (153 * mp + 2) / 5 + d - 1;
+    let doe = yoe * 365 + yoe / 4 - yoe / 100 + doy;
+    era * 146_097 + doe - 719_468
+}
+
+fn civil_from_days(z: i64) -> (i64, i64, i64) {
+    let z = z + 719_468;
+    let era = z.div_euclid(146_097);
+    let doe = z.rem_euclid(146_097);
+    let yoe = (doe - doe / 1460 + doe / 36_524 - doe / 146_096) / 365;
+    let y = yoe + era * 400;
+    let doy = doe - (365 * yoe + yoe / 4 - yoe / 100);
+    let mp = (5 * doy + 2) / 153;
+    let d = doy - (153 * mp + 2) / 5 + 1;
+    let m = if mp < 10 { mp + 3 } else { mp - 9 };
+    (if m <= 2 { y + 1 } else { y }, m, d)
+}
+
+fn is_leap(y: i64) -> bool { y.rem_euclid(4) == 0 && (y.rem_euclid(100) != 0 || y.rem_euclid(400) == 0) }
+fn month_len(y: i64, m: i64) -> i64 {
+    match m { 2 => if is_leap(y) { 29 } else { 28 }, 4 | 6 | 9 | 11 => 30, _ => 31 }
+}
+fn year_len(y: i64) -> i64 { if is_leap(y) { 366 } else { 365 } }
+/// chrono's datetime range, as UTC nanoseconds
+fn min_ns() -> i128 { days_from_civil(-262_143, 1, 1) as i128 * 86_400 * NS }
+fn max_ns() -> i128 { (days_from_civil(262_142, 12, 31) as i128 + 1) * 86_400 * NS - 1 }
+
+// ------------------------------------------------------------------ literals
+#[derive(Clone, Debug)]
+enum Zs { None, Fixed { neg: bool, h: String, m: Option<String> }, Named(Tz) }
+#[derive(Clone, Debug, PartialEq)]
+enum Dk { Ymd, Ordinal, Ctime, Today, Unusable }
+#[derive(Clone, Debug)]
+struct Tm { h: i64, mi: i64, sec: Option<(String, Option<String>)> }
+#[derive(Clone, Debug)]
+struct Lit { dk: Dk, y: i64, m: i64, d: i64, ord: i64, wd: i64, time: Option<Tm>, zone: Zs, text: String, no_model: bool }
+
+#[derive(Clone, Debug, PartialEq)]
+enum ZoneOut { Fixed(i64), Named(Tz) }
+#[derive(Clone, Debug, PartialEq)]
+enum Want { Inst(i128, ZoneOut), Refuse(&'static str), NoExpect }
+
+fn all_digits(s: &str) -> bool { !s.is_empty() && s.bytes().all(|b| b.is_ascii_digit()) }
+
+/// `LocalResult` of a local wall-clock time in a named zone, as offsets in seconds
+#[derive(Clone, Debug, PartialEq)]
+enum Loc { Single(i64), Ambiguous(i64, i64), Gap }
+fn local_in(tz: Tz, days: i64, sod: i64) -> Option<Loc> {
+    let (y, m, d) = civil_from_days(days);
+    let nd = NaiveDate::from_ymd_opt(y as i32, m as u32, d as u32)?;
+    let ndt = nd.and_hms_opt((sod / 3600) as u32, (sod / 60 % 60) as u32, (sod % 60) as u32)?;
+    Some(match tz.offset_from_local_datetime(&ndt) {
+        LocalResult::Single(o) => Loc::Single(o.fix().local_minus_utc() as i64),
+        LocalResult::Ambiguous(a, b) => Loc::Ambiguous(a.fix().local_minus_utc() as i64, b.fix().local_minus_utc() as i64),
+        LocalResult::None => Loc::Gap,
+    })
+}
+fn offset_at(tz: Tz, utc_secs: i64) -> i64 {
+    let days = utc_secs.div_euclid(86_400);
+    let sod = utc_secs.rem_euclid(86_400);
+    let (y, m, d) = civil_from_days(days);
+    match NaiveDate::from_ymd_opt(y as i32, m as u32, d as u32).and_then(|nd| nd.and_hms_opt((sod / 3600) as u32, (sod / 60 % 60) as u32, (sod % 60) as u32)) {
+        Some(ndt) => tz.offset_from_utc_datetime(&ndt).fix().local_minus_utc() as i64,
+        None => 0,
+    }
+}
+
+impl Lit {
+    /// seconds token -> (second, nanosecond) per the documentation: two digits, up to nine fraction digits
+    fn sec_value(&self) -> Result<(i64, i64), &'static str> {
+        match self.time.as_ref().and_then(|t| t.sec.as_ref()) {
+            None => Ok((0, 0)),
+            Some((ss, None)) => if ss.len() == 2 && all_digits(ss) { Ok((ss.parse().unwrap(), 0)) } else { Err("malformed") },
+            Some((ss, Some(f))) => {
+                if ss.len() != 2 || !all_digits(ss) || !all_digits(f) { return Err("malformed"); }
+                if f.len() > 9 { return Err("malformed"); }
+                let mut n: i64 = f.parse().unwrap();
+                for _ in f.len()..9 { n *= 10; }
+                Ok((ss.parse().unwrap(), n))
+            }
+        }
+    }
+
+    /// What the literal denotes, by the documentation of the patterns and the proleptic Gregorian
+    /// calendar; `Refuse` = it denotes nothing and must be answered with an error.
+    fn want(&self, now: i64) -> Want {
+        // zone
+        let fixed_off: Option<i64> = match &self.zone {
+            Zs::None => Some(0),
+            Zs::Named(_) => None,
+            Zs::Fixed { neg, h, m } => {
+                if !all_digits(h) { return Want::Refuse("malformed"); }
+                let (hh, mm): (i128, i128) = match m {
+                    None => { if h.len() != 4 { return Want::Refuse("malformed"); } let v: i128 = h.parse().unwrap(); (v / 100, v % 100) }
+                    Some(m) => {
+                        if m.len() != 2 || !all_digits(m) || h.len() > 30 { return Want::Refuse("malformed"); }
+                        (h.parse().unwrap(), m.parse().unwrap())
+                    }
+                };
+                if mm > 59 { return Want::Refuse("malformed"); }
+                let off = hh * 3600 + mm * 60;
+                if off >= 86_400 { return Want::Refuse("offset-out-of-range"); }
+                Some(if *neg { -(off as i64) } else { off as i64 })
+            }
+        };
+        // time
+        let tod: Option<(i64, i64)> = match &self.time {
+            None => None,
+            Some(t) => {
+                let (s, ns) = match self.sec_value() { Ok(x) => x, Err(e) => return Want::Refuse(e) };
+                if t.h < 0 || t.h > 23 || t.mi < 0 || t.mi > 60 { return Want::Refuse("malformed"); }
+                if s > 60 && t.sec.as_ref().map(|x| x.1.is_none()).unwrap_or(false) { return Want::Refuse("malformed"); }
+                if t.mi > 59 || s > 60 { return Want::Refuse("impossible-time"); }
+                if s == 60 { return Want::NoExpect; }
+                Some((t.h * 3600 + t.mi * 60 + s, ns))
+            }
+        };
+        // date
+        let days: Option<i64> = match self.dk {
+            Dk::Today => None,
+            Dk::Unusable => return Want::Refuse("unusable-date-fields"),
+            Dk::Ymd | Dk::Ctime => {
+                if self.m < 1 || self.m > 12 || self.d < 1 || self.d > 31 { return Want::Refuse("malformed"); }
+                if self.d > month_len(self.y, self.m) || self.y.abs() > 262_142 { return Want::Refuse("impossible-date"); }
+                let days = days_from_civil(self.y, self.m, self.d);
+                if self.dk == Dk::Ctime && (days + 3).rem_euclid(7) != self.wd { return Want::Refuse("impossible-date"); }
+                Some(days)
+            }
+            Dk::Ordinal => {
+                if self.ord < 1 || self.ord > 366 { return Want::Refuse("malformed"); }
+                if self.ord > year_len(self.y) || self.y.abs() > 262_142 { return Want::Refuse("impossible-date"); }
+                Some(days_from_civil(self.y, 1, 1) + self.ord - 1)
+            }
+        };
+        let (days, sod, ns) = match (days, tod) {
+            (Some(d), Some((sod, ns))) => (d, sod, ns),
+            (Some(d), None) => (d, 0, 0),
+            (None, Some((sod, ns))) => {
+                let off_now = match &self.zone { Zs::Named(tz) => offset_at(*tz, now), _ => fixed_off.unwrap() };
+                ((now + off_now).div_euclid(86_400), sod, ns)
+            }
+            (None, None) => return Want::Refuse("malformed"),
+        };
+        let (off, zone) = match &self.zone {
+            Zs::Named(tz) => match local_in(*tz, days, sod) {
+                Some(Loc::Single(o)) | Some(Loc::Ambiguous(o, _)) => (o, ZoneOut::Named(*tz)),
+                Some(Loc::Gap) => return Want::Refuse("nonexistent-local-time"),
+                None => return Want::NoExpect,
+            },
+            _ => (fixed_off.unwrap(), ZoneOut::Fixed(fixed_off.unwrap())),
+        };
+        let n = (days as i128 * 86_400 + sod as i128 - off as i128) * NS + ns as i128;
+        if n < min_ns() || n > max_ns() { return Want::Refuse("out-of-range"); }
+        Want::Inst(n, zone)
+    }
+
+    /// the three tokens of the Lean request; `None` when the model's inputs cannot be computed
+    fn lean(&self, now: i64) -> Option<String> {
+        if self.no_model { return None; }
+        let date = match self.dk {
+            Dk::Ymd => format!("ymd:{}:{}:{}", self.y, self.m, self.d),
+            Dk::Ctime => format!("ymdw:{}:{}:{}:{}", self.y, self.m, self.d, self.wd),
+            Dk::Ordinal => format!("yo:{}:{}", self.y, self.ord),
+            Dk::Today => "nodate".into(),
+            Dk::Unusable => "unusable".into(),
+        };
+        let time = match &self.time {
+            None => "notime".into(),
+            Some(t) => format!("hm:{}:{}:{}", t.h, t.mi, match &t.sec { None => "-".to_string(), Some((s, None)) => s.clone(), Some((s, Some(f))) => format!("{}.{}", s, f) }),
+        };
+        let zone = match &self.zone {
+            Zs::None => "z0".into(),
+            Zs::Fixed { neg, h, m } => format!("zf:{}:{}:{}", if *neg { "-" } else { "+" }, h, m.clone().unwrap_or_else(|| "-".into())),
+            Zs::Named(tz) => {
+                // the local time the code will look up: date (or today in that zone) and time of day
+                let off_now = offset_at(*tz, now);
+                let t = self.time.as_ref()?;
+                let (s, _) = self.sec_value().ok()?;
+                if t.h > 23 || t.mi > 59 || s > 59 { return None; }
+                let days = match self.dk {
+                    Dk::Today => (now + off_now).div_euclid(86_400),
+                    Dk::Ymd | Dk::Ctime => { if self.m < 1 || self.m > 12 || self.d < 1 || self.d > month_len(self.y, self.m) { return None; } days_from_civil(self.y, self.m, self.d) }
+                    Dk::Ordinal => { if self.ord < 1 || self.ord > year_len(self.y) { return None; } days_from_civil(self.y, 1, 1) + self.ord - 1 }
+                    Dk::Unusable => return None,
+                };
+                let loc = match local_in(*tz, days, t.h * 3600 + t.mi * 60 + s)? { Loc::Single(o) => format!("s,{}", o), Loc::Ambiguous(a, b) => format!("a,{},{}", a, b), Loc::Gap => "g".into() };
+                format!("zn:{}:{}:{}", hex(tz.name()), off_now, loc)
+            }
+        };
+        Some(format!("{} {} {}", date, time, zone))
+    }
+    fn named(&self) -> Option<Tz> { if let Zs::Named(tz) = &self.zone { Some(*tz) } else { None } }
+}
+
+const MONTHS: [&str; 12] = ["January", "February", "March", "April", "May", "June", "July", "August", "September", "October", "November", "December"];
+const WEEKDAYS: [&str; 7] = ["Monday", "Tuesday", "Wednesday", "Thursday", "Friday", "Saturday", "Sunday"];
+
+fn vary_case(rng: &mut Rng, s: &str) -> String {
+    match rng.below(4) { 0 => s.to_lowercase(), 1 => s.to_uppercase(), _ => s.to_string() }
+}
+fn month_text(rng: &mut Rng, m: i64) -> String {
+    let full = MONTHS[(m - 1).clamp(0, 11) as usize];
+    let s = if rng.chance(1, 2) { full.to_string() } else { full[..3].to_string() };
+    vary_case(rng, &s)
+}
+fn weekday_text(rng: &mut Rng, wd: i64) -> String {
+    let full = WEEKDAYS[wd.rem_euclid(7) as usize];
+    let s = if rng.chance(1, 2) { full.to_string() } else { full[..3].to_string() };
+    vary_case(rng, &s)
+}
+fn year_text(rng: &mut Rng, y: i64) -> String {
+    if y < 0 { format!("-{:04}", -y) } else if y > 9999 { if rng.chance(1, 2) { format!("+{}", y) } else { format!("{}", y) } }
+    else if rng.chance(1, 6) { format!("{}", y) } else { format!("{:04}", y) }
+}
+
+/// renders the literal in one of the documented patterns that can express its components
+fn render(rng: &mut Rng, l: &mut Lit) {
+    let zone = |z: &Zs| -> String {
+        match z { Zs::None => String::new(), Zs::Fixed { neg, h, m } => format!(" {}{}{}", if *neg { "-" } else { "+" }, h, m.as_ref().map(|m| format!(":{}", m)).unwrap_or_default()), Zs::Named(tz) => format!(" {}", tz.name()) }
+    };
+    let sec = |t: &Tm| -> String { match &t.sec { None => String::new(), Some((s, None)) => format!(":{}", s), Some((s, Some(f))) => format!(":{}.{}", s, f) } };
+    let t24 = |t: &Tm, z: &Zs| -> String { format!("{:02}:{:02}{}{}", t.h, t.mi, sec(t), zone(z)) };
+    let t12 = |rng: &mut Rng, t: &Tm, z: &Zs| -> String {
+        let h12 = if t.h % 12 == 0 { 12 } else { t.h % 12 };
+        let mer = vary_case(rng, if t.h >= 12 { "pm" } else { "am" });
+        format!("{:02}:{:02}{} {}{}", h12, t.mi, sec(t), mer, zone(z))
+    };
+    let valid_hour = l.time.as_ref().map(|t| (0..24).contains(&t.h)).unwrap_or(true);
+    l.text = match l.dk {
+        Dk::Today => {
+            let t = l.time.as_ref().unwrap();
+            if valid_hour && rng.chance(1, 3) { t12(rng, t, &l.zone) } else { t24(t, &l.zone) }
+        }
+        Dk::Ordinal => {
+            let mut s = format!("{}-{:03}", year_text(rng, l.y), l.ord);
+            if let Some(t) = &l.time { s.push(' '); s.push_str(&t24(t, &l.zone)); }
+            s
+        }
+        Dk::Ctime => {
+            let mut s = format!("{} {} {}", weekday_text(rng, l.wd), month_text(rng, l.m), if rng.chance(1, 2) { format!("{}", l.d) } else { format!("{:02}", l.d) });
+            if let Some(t) = &l.time { s.push(' '); s.push_str(&t24(t, &Zs::None)); }
+            s.push_str(&format!(" {:04}", l.y));
+            s
+        }
+        Dk::Unusable => l.text.clone(),
+        Dk::Ymd => {
+            // a year below 1 is written with `bc` in the month-name patterns
+            // a month number outside 1..12 can only be written in the numeric patterns
+            let pat = if l.m < 1 || l.m > 12 { rng.below(2) } else { rng.below(if l.y < 1 || l.y > 9999 { 3 } else { 4 }) };
+            match pat {
+                0 | 1 => {
+                    let mut s = format!("{}-{:02}-{:02}", year_text(rng, l.y), l.m, l.d);
+                    if let Some(t) = &l.time { s.push(if pat == 0 { 'T' } else { ' ' }); s.push_str(&t24(t, &l.zone)); }
+                    s
+                }
+                _ => {
+                    let coin = rng.chance(1, 2);
+                    let (ytxt, suffix) = if l.y < 1 { (format!("{}", 1 - l.y), vary_case(rng, if coin { " bc" } else { " bce" })) }
+                        else if rng.chance(1, 8) { (format!("{}", l.y), vary_case(rng, if coin { " ad" } else { " ce" })) }
+                        else { (if rng.chance(1, 4) { format!("{}", l.y) } else { format!("{:04}", l.y) }, String::new()) };
+                    let day = if rng.chance(1, 2) { format!("{}", l.d) } else { format!("{:02}", l.d) };
+                    let mut s = if pat == 2 { format!("{} {}{} {}", month_text(rng, l.m), day, if rng.chance(1, 2) { "," } else { "" }, ytxt) } else { format!("{} {} {}", ytxt, month_text(rng, l.m), day) };
+                    if let Some(t) = &l.time {
+                        s.push(' ');
+                        if valid_hour && rng.chance(1, 2) { s.push_str(&t12(rng, t, &l.zone)) } else { s.push_str(&t24(t, &l.zone)) }
+                    }
+                    s.push_str(&suffix);
+                    s
+                }
+            }
+        }
+    };
+}
+
+const YEARS: [i64; 30] = [1, 2, 4, 99, 100, 101, 400, 1000, 1582, 1600, 1700, 1800, 1899, 1900, 1901, 1969, 1970, 1971, 1999, 2000, 2001, 2019, 2020, 2023, 2024, 2038, 2100, 2400, 9998, 9999];
+const ZONES: [&str; 28] = ["UTC", "Europe/London", "Europe/Amsterdam", "Europe/Berlin", "Europe/Moscow", "America/New_York", "America/Los_Angeles", "America/Sao_Paulo", "America/St_Johns",
+    "Asia/Tokyo", "Asia/Kolkata", "Asia/Kathmandu", "Asia/Tehran", "Australia/Sydney", "Australia/Lord_Howe", "Australia/Adelaide", "Pacific/Auckland", "Pacific/Chatham", "Pacific/Apia", "Pacific/Kiritimati",
+    "Africa/Cairo", "Africa/Johannesburg", "US/Pacific", "Japan", "Iceland", "Zulu", "Atlantic/Azores", "Antarctica/Troll"];
+
+fn lexable_zone(name: &str) -> bool { !name.is_empty() && !name.chars().any(|c| "#:-+ ".contains(c) || c.is_ascii_digit()) && name != "GB" }
+
+fn gen_frac(rng: &mut Rng) -> Option<String> {
+    match rng.below(10) {
+        0 | 1 | 2 => None,
+        3 => Some("000000001".into()),
+        4 => Some("999999999".into()),
+        5 => Some("5".into()),
+        _ => { let n = 1 + rng.below(9) as usize; Some((0..n).map(|_| char::from(b'0' + rng.below(10) as u8)).collect()) }
+    }
+}
+fn gen_zone(rng: &mut Rng, zones: &[Tz]) -> Zs {
+    match rng.below(10) {
+        0 | 1 | 2 => Zs::None,
+        3 | 4 | 5 | 6 => {
+            let (h, m) = match rng.below(8) { 0 => (0, 0), 1 => (23, 59), 2 => (12, 0), 3 => (14, 0), 4 => (5, 45), _ => (rng.below(24) as i64, rng.below(60) as i64) };
+            let neg = rng.chance(1, 2);
+            match rng.below(4) {
+                0 => Zs::Fixed { neg, h: format!("{:02}{:02}", h, m), m: None },
+                1 => Zs::Fixed { neg, h: format!("{}", h), m: Some(format!("{:02}", m)) },
+                _ => Zs::Fixed { neg, h: format!("{:02}", h), m: Some(format!("{:02}", m)) },
+            }
+        }
+        _ => Zs::Named(*rng.pick(zones)),
+    }
+}
+fn gen_time(rng: &mut Rng) -> Tm {
+    let (h, mi) = match rng.below(6) { 0 => (0, 0), 1 => (23, 59), 2 => (12, 0), 3 => (11, 59), _ => (rng.below(24) as i64, rng.below(60) as i64) };
+    let sec = if rng.chance(1, 4) { None } else {
+        let s = match rng.below(5) { 0 => 0, 1 => 59, _ => rng.below(60) };
+        Some((format!("{:02}", s), gen_frac(rng)))
+    };
+    Tm { h, mi, sec }
+}
+fn gen_ymd(rng: &mut Rng) -> (i64, i64, i64) {
+    let y = if rng.chance(1, 2) { *rng.pick(&YEARS) } else { rng.range(1, 9999) };
+    let m = match rng.below(5) { 0 => 2, 1 => 12, 2 => 1, _ => rng.range(1, 12) };
+    let d = match rng.below(4) { 0 => 1, 1 => month_len(y, m), 2 => (month_len(y, m) - 1).max(1), _ => rng.range(1, month_len(y, m)) };
+    (y, m, d)
+}
+
+/// a well-formed literal with valid fields in a random pattern
+fn gen_valid(rng: &mut Rng, zones: &[Tz]) -> Lit {
+    let (y, m, d) = gen_ymd(rng);
+    let days = days_from_civil(y, m, d);
+    let dk = match rng.below(12) { 0 | 1 => Dk::Ordinal, 2 => Dk::Ctime, 3 => Dk::Today, _ => Dk::Ymd };
+    let mut time = if dk == Dk::Today || rng.chance(3, 4) { Some(gen_time(rng)) } else { None };
+    let mut zone = if time.is_some() && dk != Dk::Ctime { gen_zone(rng, zones) } else { Zs::None };
+    if let (Zs::Named(_), Some(t)) = (&zone, time.as_mut()) {
+        // seconds below 60 always; keep as generated
+        let _ = t;
+    }
+    if dk == Dk::Ctime { zone = Zs::None; }
+    if time.is_none() { zone = Zs::None; }
+    let mut l = Lit { dk, y, m, d, ord: days - days_from_civil(y, 1, 1) + 1, wd: (days + 3).rem_euclid(7), time: time.take(), zone, text: String::new(), no_model: false };
+    render(rng, &mut l);
+    l
+}
+
+/// literals that spell something impossible, unusable or malformed; every one has a valid twin
+fn gen_invalid(rng: &mut Rng, zones: &[Tz]) -> Lit {
+    loop {
+        let mut l = gen_valid(rng, zones);
+        if l.named().is_some() { l.zone = Zs::None; }
+        match rng.below(14) {
+            0 => { if l.dk == Dk::Ymd || l.dk == Dk::Ctime { let ml = month_len(l.y, l.m); if ml < 31 { l.d = rng.range(ml + 1, 31); } else { continue; } } else { continue; } }
+            1 => { if l.dk == Dk::Ordinal && !is_leap(l.y) { l.ord = 366; } else { continue; } }
+            2 => { if l.dk == Dk::Ctime { l.wd = (l.wd + 1 + rng.below(6) as i64) % 7; } else { continue; } }
+            3 => { if let Some(t) = l.time.as_mut() { t.mi = 60; } else { continue; } }
+            4 => { if let Some(t) = l.time.as_mut() { t.sec = Some((format!("{}", rng.range(61, 99)), Some("5".into()))); } else { continue; } }
+            5 => { if let Some(t) = l.time.as_mut() { t.sec = Some((format!("{}", rng.range(61, 99)), None)); } else { continue; } }
+            6 => { if l.dk == Dk::Ymd { l.m = if rng.chance(1, 2) { 13 } else { 0 }; l.text.clear(); } else { continue; } }
+            7 => { if l.dk == Dk::Ymd { l.d = if rng.chance(1, 2) { 32 } else { 0 }; } else { continue; } }
+            8 => { if let Some(t) = l.time.as_mut() { t.h = 24; } else { continue; } }
+            9 => { if l.time.is_some() && l.dk != Dk::Ctime {
+                    let neg = rng.chance(1, 2);
+                    l.zone = match rng.below(5) { 0 => Zs::Fixed { neg, h: "24".into(), m: Some("00".into()) }, 1 => Zs::Fixed { neg, h: "2400".into(), m: None }, 2 => Zs::Fixed { neg, h: "9999".into(), m: None },
+                        3 => Zs::Fixed { neg, h: format!("{}", rng.range(24, 99)), m: Some(format!("{:02}", rng.below(60))) }, _ => Zs::Fixed { neg, h: format!("{}", rng.range(100, 596_523)), m: Some("00".into()) } };
+                } else { continue; } }
+            10 => { if let Some(t) = l.time.as_mut() { let n = 10 + rng.below(3) as usize; t.sec = Some(("00".into(), Some((0..n).map(|i| if i + 1 == n { '1' } else { '0' }).collect()))); } else { continue; } }
+            11 => { if l.time.is_some() && l.dk != Dk::Ctime { l.zone = Zs::Fixed { neg: rng.chance(1, 2), h: format!("{}", rng.range(596_524, 999_999_999)), m: Some("00".into()) }; } else { continue; } }
+            12 => { if let Some(t) = l.time.as_mut() { t.sec = Some(("60".into(), if rng.chance(1, 2) { None } else { Some("5".into()) })); } else { continue; } }
+            _ => {
+                // date fields from which no date can be built: ISO week, month and day without a year
+                let t = l.time.clone();
+                let tt = t.as_ref().map(|t| format!(" {:02}:{:02}", t.h, t.mi)).unwrap_or_default();
+                let form = rng.below(3);
+                let body = match form { 0 => format!("{:04}-W{:02}", l.y, rng.range(1, 52)), 1 => format!("--{:02}-{:02}", l.m, l.d), _ => format!("{} {}", MONTHS[(l.m - 1) as usize], l.d) };
+                // `Month D HH:MM` reads HH as the year and fails at `:` — refused already, but not by the modelled path
+                l.no_model = form == 2 && t.is_some();
+                l.dk = Dk::Unusable; l.zone = Zs::None;
+                if let Some(t) = l.time.as_mut() { t.sec = None; }
+                l.text = format!("{}{}", body, tt);
+                return l;
+            }
+        }
+        render(rng, &mut l);
+        return l;
+    }
+}
+
+// ------------------------------------------------------------------ durations
+#[derive(Clone, Debug)]
+struct Dur { text: String, t: R }
+
+fn rat(n: i128, d: i128) -> R { R::new(BigInt::from(n), BigInt::from(d)) }
+fn fmt_r(r: &R) -> String { format!("{}/{}", r.numer(), r.denom()) }
+fn pow10(k: u32) -> BigInt { BigInt::from(10u8).pow(k) }
+
+/// decimal rendering if it terminates within 30 digits, else `p|q`
+fn coef_text(rng: &mut Rng, c: &R) -> String {
+    let c = c.abs();
+    let mut den = c.denom().clone();
+    let (mut twos, mut fives) = (0u32, 0u32);
+    while (&den % BigInt::from(2u8)).is_zero() { den /= 2; twos += 1; }
+    while (&den % BigInt::from(5u8)).is_zero() { den /= 5; fives += 1; }
+    let k = twos.max(fives);
+    if den.is_one() && k <= 30 && !rng.chance(1, 6) {
+        let scaled = (c.numer() * pow10(k)) / c.denom();
+        let s = scaled.to_string();
+        if k == 0 { return s; }
+        let k = k as usize;
+        let s = if s.len() <= k { format!("{}{}", "0".repeat(k + 1 - s.len()), s) } else { s };
+        let (a, b) = s.split_at(s.len() - k);
+        return format!("{}.{}", a, b);
+    }
+    if c.denom().is_one() { c.numer().to_string() } else { format!("{}|{}", c.numer(), c.denom()) }
+}
+
+fn whole_ns(t: &R) -> bool { (t * R::from_integer(BigInt::from(NS))).is_integer() }
+/// truncation toward zero to whole nanoseconds
+fn trunc_ns(t: &R) -> BigInt { (t * R::from_integer(BigInt::from(NS))).trunc().to_integer() }
+
+struct Units { list: Vec<(String, R)> }
+impl Units {
+    fn load(ctx: &Context) -> Units {
+        let secs = Dimensionality::base_unit(BaseUnit::new("s"));
+        let mut list = vec![];
+        for name in ["ns", "nanosecond", "nanoseconds", "us", "µs", "microsecond", "microseconds", "ms", "millisecond", "milliseconds", "s", "sec", "second", "seconds",
+            "min", "minute", "minutes", "hr", "hour", "hours", "day", "days", "week", "weeks", "fortnight", "year", "years", "decade", "century", "ks", "Ms"] {
+            if let Some(n) = ctx.lookup(name) {
+                if n.unit == secs { if let Numeric::Rational(_) = n.value { let (a, b) = n.value.to_rational(); list.push((name.to_string(), R::new(BigInt::from_str(&a.to_string()).unwrap(), BigInt::from_str(&b.to_string()).unwrap()))); } }
+            }
+        }
+        Units { list }
+    }
+}
+
+/// a duration of exactly `k` nanoseconds (k > 0), written in a random unit
+fn dur_of_ns(rng: &mut Rng, units: &Units, k: &BigInt) -> Dur {
+    let t = R::new(k.clone(), BigInt::from(NS));
+    let (name, val) = rng.pick(&units.list).clone();
+    let c = &t / &val;
+    Dur { text: format!("{} {}", coef_text(rng, &c), name), t }
+}
+/// a decimal or fractional coefficient times a unit; not necessarily whole nanoseconds
+fn dur_free(rng: &mut Rng, units: &Units) -> Dur {
+    let (name, val) = rng.pick(&units.list).clone();
+    let c = match rng.below(4) {
+        0 => rat(1 + rng.below(999) as i128, 1),
+        1 => rat(1 + rng.below(99_999) as i128, 10i128.pow(rng.below(7) as u32)),
+        2 => rat(1 + rng.below(999) as i128, 1 + rng.below(999) as i128),
+        _ => rat(1 + rng.below(9) as i128, 3),
+    };
+    Dur { text: format!("{} {}", coef_text(rng, &c), name), t: &c * &val }
+}
+fn gen_ns(rng: &mut Rng) -> BigInt {
+    let max_ns = BigInt::from(MAX_SECS) * BigInt::from(NS);
+    match rng.below(12) {
+        0 => BigInt::from(*rng.pick(&[1i64, 2, 999, 1000, 1001, 999_999, 1_000_000, 1_000_001, 999_999_999, 1_000_000_000, 1_000_000_001, 1_500_000, 500_000, 86_400_000_000_001])),
+        1 => BigInt::from(1 + rng.below(999_999)),                              // below a millisecond
+        2 => BigInt::from(rng.below(1_000_000_000) * 1_000_000),               // whole milliseconds
+        3 => BigInt::from(rng.next() >> rng.below(60)),
+        4 => &max_ns - BigInt::from(rng.below(3_000_000)),                     // at the documented maximum
+        5 => { let years = 1 + rng.below(262_000); BigInt::from(years) * BigInt::from(31_556_952u64) * BigInt::from(NS) + BigInt::from(rng.below(1_000_000_000)) }
+        6 => { let e = rng.below(25) as u32; pow10(e) * BigInt::from(1 + rng.below(9)) + BigInt::from(rng.below(1000)) }
+        _ => { let e = rng.below(19) as u32; BigInt::from(1 + rng.below(999_999_999)) * pow10(e) / pow10(rng.below(e as u64 + 1) as u32) + BigInt::from(1u8) }
+    }
+}
+
+// ------------------------------------------------------------------ canonical answers
+fn rfc_parse(s: &str) -> Option<(i64, i64, i64, i64, i64, i64, i64, i64)> {
+    // [+-]Y…-MM-DDTHH:MM:SS[.f…](Z|+HH:MM|-HH:MM)
+    let (sign, rest) = if let Some(r) = s.strip_prefix('-') { (-1, r) } else if let Some(r) = s.strip_prefix('+') { (1, r) } else { (1, s) };
+    let tpos = rest.find('T')?;
+    let (date, time) = rest.split_at(tpos);
+    let time = &time[1..];
+    let mut dp = date.split('-');
+    let y: i64 = dp.next()?.parse().ok()?;
+    let m: i64 = dp.next()?.parse().ok()?;
+    let d: i64 = dp.next()?.parse().ok()?;
+    let (clock, off) = if let Some(c) = time.strip_suffix('Z') { (c, 0) } else {
+        let p = time.rfind(|c| c == '+' || c == '-')?;
+        let (c, o) = time.split_at(p);
+        let sg = if o.starts_with('-') { -1 } else { 1 };
+        let mut op = o[1..].split(':');
+        let oh: i64 = op.next()?.parse().ok()?;
+        let om: i64 = op.next()?.parse().ok()?;
+        (c, sg * (oh * 3600 + om * 60))
+    };
+    let (hms, frac) = match clock.split_once('.') { Some((a, f)) => (a, f), None => (clock, "") };
+    let mut hp = hms.split(':');
+    let h: i64 = hp.next()?.parse().ok()?;
+    let mi: i64 = hp.next()?.parse().ok()?;
+    let sec: i64 = hp.next()?.parse().ok()?;
+    let mut ns: i64 = 0;
+    if !frac.is_empty() { if frac.len() > 9 || !all_digits(frac) { return None; } ns = frac.parse().ok()?; for _ in frac.len()..9 { ns *= 10; } }
+    Some((sign * y, m, d, h, mi, sec, ns, off))
+}
+
+/// integer nanoseconds since the epoch and offset, from the reply's own fields and its RFC 3339 text
+fn canon_date(d: &DateReply, zone: Option<Tz>) -> String {
+    let local = (days_from_civil(d.year as i64, d.month as i64, d.day as i64) as i128 * 86_400 + d.hour as i128 * 3600 + d.minute as i128 * 60 + d.second as i128) * NS + d.nanosecond as i128;
+    let (ry, rm, rd, rh, rmi, rs, rns, roff) = match rfc_parse(&d.rfc3339) { Some(x) => x, None => return format!("date-inconsistent unparsable-rfc3339:{}", hex(&d.rfc3339)) };
+    let rlocal = (days_from_civil(ry, rm, rd) as i128 * 86_400 + rh as i128 * 3600 + rmi as i128 * 60 + rs as i128) * NS + rns as i128;
+    if rlocal != local { return format!("date-inconsistent fields-vs-rfc3339:{}", hex(&d.rfc3339)); }
+    match zone {
+        None => format!("date {} {}", local - roff as i128 * NS, roff),
+        Some(tz) => {
+            // the zone's offsets for this wall-clock time; RFC 3339 shows the offset rounded to minutes
+            let days = local.div_euclid(86_400 * NS) as i64;
+            let sod = (local.rem_euclid(86_400 * NS) / NS) as i64;
+            let cands: Vec<i64> = match local_in(tz, days, sod.min(86_399)) { Some(Loc::Single(o)) => vec![o], Some(Loc::Ambiguous(a, b)) => vec![a, b], _ => vec![] };
+            let round = |o: i64| -> i64 { let m = (o.abs() + 30) / 60; o.signum() * m * 60 };
+            match cands.iter().find(|o| **o == roff || round(**o) == roff || (**o - roff).abs() < 60) {
+                Some(o) => format!("date {} zone", local - *o as i128 * NS),
+                None => format!("date-inconsistent offset-{}-not-of-zone-{}", roff, tz.name()),
+            }
+        }
+    }
+}
+
+fn canon(r: &Result<QueryReply, QueryError>, zone: Option<Tz>) -> String {
+    let secs = Dimensionality::base_unit(BaseUnit::new("s"));
+    let num = |n: &Option<Number>| -> String {
+        match n { Some(n) if n.unit == secs => format!("dur {}", evalsess::fmt_numeric(&n.value)), Some(n) => format!("number {}", evalsess::fmt_number(n)), None => "number none".into() }
+    };
+    match r {
+        Err(_) => "err".into(),
+        Ok(QueryReply::Date(d)) => canon_date(d, zone),
+        Ok(QueryReply::Number(p)) => num(&p.raw_value),
+        Ok(QueryReply::Duration(d)) => num(&d.raw.raw_value),
+        Ok(_) => "other".into(),
+    }
+}
+
+fn eval(ctx: &mut Context, q: &str, zone: Option<Tz>) -> String {
+    std::panic::catch_unwind(std::panic::AssertUnwindSafe(|| {
+        let (_q, r) = evalsess::eval_pinned(ctx, q);
+        // rendering must not panic either
+        let _ = match &r { Ok(v) => v.to_string(), Err(e) => e.to_string() };
+        canon(&r, zone)
+    })).unwrap_or_else(|_| "panic".into())
+}
+
+fn fmt_inst(ns: i128, z: &ZoneOut) -> String { match z { ZoneOut::Fixed(o) => format!("date {} {}", ns, o), ZoneOut::Named(_) => format!("date {} zone", ns) } }
+
+// ------------------------------------------------------------------ the stream
+struct Out {
+    req: std::io::BufWriter<std::fs::File>, imp: std::io::BufWriter<std::fs::File>, orc: std::io::BufWriter<std::fs::File>,
+    total: u64, oracle_checked: u64, nviol: u64, kinds: std::collections::BTreeMap<String, u64>, answers: std::collections::BTreeMap<String, u64>,
+    laws: std::collections::BTreeMap<String, u64>, samples: Vec<String>, distinct: std::collections::HashSet<u64>, model_lines: u64,
+}
+impl Out {
+    /// one evaluated case: `req` (None = outside the model's input language, oracle only), the
+    /// implementation's answer, and the oracle's verdict
+    fn case(&mut self, kind: &str, query: &str, req: Option<String>, got: &str, want: Option<(&str, String)>, tz: Option<Tz>) {
+        use std::hash::{Hash, Hasher};
+        self.total += 1;
+        *self.kinds.entry(kind.to_string()).or_insert(0) += 1;
+        *self.answers.entry(got.split(' ').next().unwrap_or("").to_string()).or_insert(0) += 1;
+        let mut h = std::collections::hash_map::DefaultHasher::new();
+        query.hash(&mut h);
+        self.distinct.insert(h.finish());
+        if self.total % 997 == 1 && self.samples.len() < 24 { self.samples.push(format!("{}  =>  {}", query, got)); }
+        if let Some(r) = &req { writeln!(self.req, "{}", r).unwrap(); writeln!(self.imp, "{}", got).unwrap(); self.model_lines += 1; }
+        let mut viol: Option<(String, String)> = None;
+        if got == "panic" { viol = Some((format!("no-panic:{}", kind), want.as_ref().map(|w| w.1.clone()).unwrap_or_else(|| "an answer or an error".into()))); }
+        else if got.starts_with("date-inconsistent") { viol = Some(("reply-consistent".into(), "year/month/day/hour/minute/second/nanosecond fields, rfc3339 text and zone agree".into())); }
+        else if let Some((law, w)) = &want {
+            self.oracle_checked += 1;
+            let ok = if w == "err" { got == "err" } else if let Some(rest) = w.strip_prefix("within1ns ") {
+                // `dur` or `date`: the answer must lie within one nanosecond of the exact value, on the side of zero
+                within_one_ns(rest, got)
+            } else { got == w };
+            if !ok { viol = Some((law.to_string(), w.clone())); }
+        }
+        if let Some((law, w)) = viol {
+            self.nviol += 1;
+            *self.laws.entry(law.clone()).or_insert(0) += 1;
+            if self.laws[&law] <= 40 {
+                writeln!(self.orc, "{}", json!({"law": law, "query": query, "want": w, "got": got, "req": req, "tz": tz.map(|t| t.name().to_string())})).unwrap();
+            }
+        }
+    }
+}
+
+fn parse_r(s: &str) -> Option<R> { let (a, b) = s.split_once('/')?; Some(R::new(BigInt::from_str(a).ok()?, BigInt::from_str(b).ok()?)) }
+fn within_one_ns(want: &str, got: &str) -> bool {
+    let (wk, wv) = match want.split_once(' ') { Some(x) => x, None => return false };
+    let mut gp = got.split(' ');
+    if gp.next() != Some(wk) { return false; }
+    let gv = match gp.next() { Some(x) => x, None => return false };
+    let one = R::new(BigInt::one(), BigInt::from(NS));
+    if wk == "dur" {
+        match (parse_r(wv), parse_r(gv)) { (Some(w), Some(g)) => (&w - &g).abs() < one && (g.is_zero() || g.is_positive() == w.is_positive()) && g.abs() <= w.abs(), _ => false }
+    } else { false }
+}
+
+fn hexq(s: &str) -> String { s.to_string() }
+
+struct Gen<'a> { ctx: Context, out: Out, rng: Rng, units: Units, zones: Vec<Tz>, now: i64, _p: std::marker::PhantomData<&'a ()> }
+
+impl<'a> Gen<'a> {
+    fn lit_case(&mut self, kind: &str, l: &Lit) {
+        let q = format!("#{}#", l.text);
+        let got = eval(&mut self.ctx, &q, l.named());
+        let want = match l.want(self.now) {
+            Want::Inst(ns, z) => Some(("pattern-denotes", fmt_inst(ns, &z))),
+            Want::Refuse(why) => Some((match why { "impossible-date" => "impossible-date-refused", "impossible-time" => "impossible-time-refused", "offset-out-of-range" => "literal-offset-refused",
+                "unusable-date-fields" => "unusable-date-fields-refused", "nonexistent-local-time" => "nonexistent-local-time-refused", _ => "malformed-literal-refused" }, "err".to_string())),
+            Want::NoExpect => None,
+        };
+        let req = l.lean(self.now).map(|t| format!("lit {}", t));
+        self.out.case(kind, &hexq(&q), req, &got, want, l.named());
+    }
+
+    /// all arithmetic forms for one literal and one duration (t > 0)
+    fn arith_cases(&mut self, l: &Lit, d: &Dur) {
+        let (base, zone) = match l.want(self.now) { Want::Inst(ns, z) => (ns, z), _ => return };
+        let tzh = l.named();
+        let lean = l.lean(self.now);
+        let k = trunc_ns(&d.t);
+        let exact = whole_ns(&d.t);
+        let in_dur_range = d.t <= R::from_integer(BigInt::from(MAX_SECS));
+        let lit = format!("#{}#", l.text);
+        let k128 = k.to_i128();
+        let place = |delta_sign: i128| -> Option<i128> { k128.and_then(|k| { let n = base + delta_sign * k; if in_dur_range && n >= min_ns() && n <= max_ns() { Some(n) } else { None } }) };
+        let tn = fmt_r(&d.t);
+        let tneg = fmt_r(&-d.t.clone());
+        let lawx = |s: &'static str| -> &'static str { s };
+        // #d# + t
+        let forms: Vec<(&str, String, Option<String>, Option<i128>, &str)> = vec![
+            ("add", format!("{} + {}", lit, d.text), lean.as_ref().map(|x| format!("add {} {} s", x, tn)), place(1), "add-exact"),
+            ("add-neg", format!("{} + (-{})", lit, d.text), lean.as_ref().map(|x| format!("add {} {} s", x, tneg)), place(-1), "add-exact"),
+            ("sub", format!("{} - {}", lit, d.text), lean.as_ref().map(|x| format!("sub {} {} s", x, tn)), place(-1), "sub-exact"),
+            ("sub-neg", format!("{} - (-{})", lit, d.text), lean.as_ref().map(|x| format!("sub {} {} s", x, tneg)), place(1), "sub-exact"),
+            ("add-commuted", format!("{} + {}", d.text, lit), lean.as_ref().map(|x| format!("add {} {} s", x, tn)), place(1), "add-exact"),
+        ];
+        for (kind, q, req, n, law) in forms {
+            let got = eval(&mut self.ctx, &q, tzh);
+            // whole nanoseconds: the exact instant; otherwise truncation toward zero is what the code documents — only the range error is judged
+            let want = match n { Some(n) => if exact { Some((lawx(law), fmt_inst(n, &zone))) } else { None }, None => Some(("out-of-range-refused", "err".to_string())) };
+            self.out.case(kind, &q, req, &got, want, tzh);
+        }
+        // (d + t) - d = t ; (d - t) - d = -t
+        for (kind, sign, text, tv) in [("addsub", 1i128, d.text.clone(), d.t.clone()), ("addsub-neg", -1, format!("(-{})", d.text), -d.t.clone())] {
+            let q = format!("({} + {}) - {}", lit, text, lit);
+            let got = eval(&mut self.ctx, &q, None);
+            let want = match place(sign) { Some(_) => if exact { Some(("add-sub-roundtrip", format!("dur {}", fmt_r(&tv)))) } else { Some(("add-sub-roundtrip", format!("within1ns dur {}", fmt_r(&tv)))) }, None => Some(("out-of-range-refused", "err".to_string())) };
+            self.out.case(kind, &q, lean.as_ref().map(|x| format!("addsub {} {} s", x, fmt_r(&tv))), &got, want, None);
+        }
+        // d - t + t = d ; d + t - t = d
+        for (kind, op1, op2, sign, reqop) in [("subadd", "-", "+", -1i128, "subadd"), ("addsubdur", "+", "-", 1, "addsubdur")] {
+            let q = format!("{} {} {} {} {}", lit, op1, d.text, op2, d.text);
+            let got = eval(&mut self.ctx, &q, tzh);
+            let want = match place(sign) { Some(_) => Some(("sub-add-roundtrip", fmt_inst(base, &zone))), None => Some(("out-of-range-refused", "err".to_string())) };
+            self.out.case(kind, &q, lean.as_ref().map(|x| format!("{} {} {} s", reqop, x, tn)), &got, want, tzh);
+        }
+    }
+
+    fn diff_case(&mut self, a: &Lit, b: &Lit) {
+        let (na, nb) = match (a.want(self.now), b.want(self.now)) { (Want::Inst(x, _), Want::Inst(y, _)) => (x, y), _ => return };
+        let q = format!("#{}# - #{}#", a.text, b.text);
+        let got = eval(&mut self.ctx, &q, None);
+        let want = format!("dur {}", fmt_r(&R::new(BigInt::from(na - nb), BigInt::from(NS))));
+        let req = match (a.lean(self.now), b.lean(self.now)) { (Some(x), Some(y)) => Some(format!("diff {} {}", x, y)), _ => None };
+        self.out.case("diff", &q, req, &got, Some(("gregorian-difference", want)), None);
+    }
+
+    fn conv_case(&mut self, l: &Lit, neg: bool, hh: &str, mm: &str) {
+        let base = match l.want(self.now) { Want::Inst(ns, _) => ns, _ => return };
+        let q = format!("#{}# -> {}{}:{}", l.text, if neg { "-" } else { "+" }, hh, mm);
+        let got = eval(&mut self.ctx, &q, None);
+        let two = hh.len() == 2 && mm.len() == 2 && all_digits(hh) && all_digits(mm);
+        let (want, req) = if two {
+            let off = (hh.parse::<i64>().unwrap() * 3600 + mm.parse::<i64>().unwrap() * 60) * if neg { -1 } else { 1 };
+            let req = l.lean(self.now).map(|x| format!("conv {} {} {} {}", x, if neg { "-" } else { "+" }, hh, mm));
+            if off.abs() < 86_400 { (Some(("rezone-preserves-instant", fmt_inst(base, &ZoneOut::Fixed(off)))), req) } else { (Some(("offset-refused", "err".to_string())), req) }
+        } else { (Some(("offset-refused", "err".to_string())), None) };
+        self.out.case("conv-offset", &q, req, &got, want, None);
+    }
+
+    fn tz_case(&mut self, l: &Lit, tz: Tz) {
+        let base = match l.want(self.now) { Want::Inst(ns, _) => ns, _ => return };
+        let name = tz.name();
+        let plain = name.chars().all(|c| c.is_ascii_alphanumeric() || c == '_') && !name.chars().next().unwrap().is_ascii_digit();
+        let q = if plain && self.rng.chance(1, 2) { format!("#{}# -> {}", l.text, name) } else { format!("#{}# -> \"{}\"", l.text, name) };
+        let got = eval(&mut self.ctx, &q, Some(tz));
+        let req = l.lean(self.now).map(|x| format!("tz {} {}", x, hex(name)));
+        self.out.case("conv-zone", &q, req, &got, Some(("rezone-preserves-instant", fmt_inst(base, &ZoneOut::Named(tz)))), Some(tz));
+    }
+
+    fn set_now(&mut self, secs: i64) {
+        self.now = secs;
+        self.ctx.set_time(chrono::Local.timestamp_opt(secs, 0).unwrap());
+        writeln!(self.out.req, "now {}", secs).unwrap();
+        writeln!(self.out.imp, "ok").unwrap();
+        self.out.model_lines += 1;
+    }
+}
+
+fn simple(text: &str, dk: Dk, y: i64, m: i64, d: i64, time: Option<Tm>, zone: Zs) -> Lit {
+    let days = days_from_civil(y, m.clamp(1, 12), d.clamp(1, 28));
+    Lit { dk, y, m, d, ord: days - days_from_civil(y, 1, 1) + 1, wd: (days + 3).rem_euclid(7), time, zone, text: text.into(), no_model: false }
+}
+fn tm(h: i64, mi: i64, sec: Option<(&str, Option<&str>)>) -> Tm { Tm { h, mi, sec: sec.map(|(s, f)| (s.to_string(), f.map(|f| f.to_string()))) } }
+fn fixed(neg: bool, h: &str, m: Option<&str>) -> Zs { Zs::Fixed { neg, h: h.into(), m: m.map(|m| m.into()) } }
+
+/// what the implementation does at each of the seven switch points of the model (first line of the stream)
+fn variant_line(ctx: &mut Context) -> String {
+    let secs = |n: i64, d: i64| Number::new_unit(Numeric::from_frac(n, d), BaseUnit::new("s"));
+    let subms = std::panic::catch_unwind(|| rink_core::parsing::datetime::to_duration(&secs(1, 1_000_000)).ok().and_then(|d| d.num_nanoseconds()))
+        .ok().flatten().map(|ns| (ns * 1000).to_string()).unwrap_or_else(|| "?".into());
+    let cls = |ctx: &mut Context, q: &str| -> String { let a = eval(ctx, q, None); a.split(' ').next().unwrap().to_string() };
+    let convoff = cls(ctx, "#2020-01-01# -> +24:00");
+    let secfrac = cls(ctx, "#2020-01-01 00:00:00.0000000000#");
+    let litovf = cls(ctx, "#2020-01-01 00:00:00 +999999999:00#");
+    let litrange = match cls(ctx, "#2020-01-01 00:00:00 +24:00#").as_str() { "date" => "utc".to_string(), x => x.to_string() };
+    let fallback = match cls(ctx, "#2021-02-30 10:00#").as_str() { "date" => "any".to_string(), "err" => "absent".to_string(), x => x.to_string() };
+    ctx.set_time(chrono::Local.timestamp_opt(1_585_483_200, 0).unwrap()); // 2020-03-29T12:00:00Z: 01:30 does not exist in London that day
+    let today = cls(ctx, "#01:30 Europe/London#");
+    ctx.set_time(chrono::Local.timestamp_opt(NOW, 0).unwrap());
+    format!("variant subms={} convoff={} secfrac={} litovf={} litrange={} fallback={} today={}", subms, convoff, secfrac, litovf, litrange, fallback, today)
+}
 
 fn main() {
+    let args: Vec<String> = std::env::args().skip(1).collect();
     std::panic::set_hook(Box::new(|_| {}));
-    let mut ctx = evalsess::new_context();
-    for line in std::io::stdin().lock().lines() {
-        let line = line.unwrap();
-        let res = std::panic::catch_unwind(std::panic::AssertUnwindSafe(|| {
-            let (_q, r) = evalsess::eval_pinned(&mut ctx, &line);
-            match r {
-                Ok(QueryReply::Date(d)) => format!("date {} | {} | {} {} {} {} {} {} {}", d.rfc3339, d.string, d.year, d.month, d.day, d.hour, d.minute, d.second, d.nanosecond),
-                Ok(QueryReply::Number(p)) => format!("number {:?}", p.raw_value.map(|n| evalsess::fmt_number(&n))),
-                Ok(QueryReply::Duration(p)) => format!("duration {:?}", p.raw.raw_value.map(|n| evalsess::fmt_number(&n))),
-                Ok(other) => format!("other {}", other),
-                Err(e) => format!("err {}", e),
-            }
-        }));
-        println!("{} => {}", line, res.unwrap_or_else(|_| "panic".into()));
+    // --query TEXT [--tz NAME]: canonical answer of one query (used by replay)
+    if let Some(p) = args.iter().position(|a| a == "--query") {
+        let mut ctx = evalsess::new_context();
+        if let Some(n) = args.iter().position(|a| a == "--now") { ctx.set_time(chrono::Local.timestamp_opt(args[n + 1].parse().unwrap_or(NOW), 0).unwrap()); }
+        let tz = args.iter().position(|a| a == "--tz").and_then(|i| Tz::from_str(&args[i + 1]).ok());
+        println!("{}", eval(&mut ctx, &args[p + 1], tz));
+        return;
     }
+    if args.iter().any(|a| a == "--variant") { let mut ctx = evalsess::new_context(); println!("{}", variant_line(&mut ctx)); return; }
+    let o = Opts::parse(&args);
+    let ctx = evalsess::new_context();
+    let units = Units::load(&ctx);
+    let zones: Vec<Tz> = ZONES.iter().filter_map(|z| Tz::from_str(z).ok()).filter(|z| lexable_zone(z.name())).collect();
+    let all_zones: Vec<Tz> = chrono_tz::TZ_VARIANTS.iter().cloned().filter(|z| z.name() != "GB").collect();
+    let out = Out { req: o.writer("req.txt"), imp: o.writer("impl.txt"), orc: o.writer("oracle.jsonl"), total: 0, oracle_checked: 0, nviol: 0, kinds: Default::default(), answers: Default::default(),
+        laws: Default::default(), samples: vec![], distinct: Default::default(), model_lines: 0 };
+    let mut g = Gen { ctx, out, rng: Rng::new(o.seed), units, zones, now: NOW, _p: std::marker::PhantomData };
+
+    // ---- line 1: which behaviour the implementation shows at the model's switch points
+    let v = variant_line(&mut g.ctx);
+    writeln!(g.out.req, "variant").unwrap();
+    writeln!(g.out.imp, "{}", v).unwrap();
+    g.out.model_lines += 1;
+
+    // ---- API level: to_duration / from_duration
+    {
+        let mut ks: Vec<BigInt> = [0i64, 1, -1, 999, 1000, 999_999, 1_000_000, 1_000_001, -1_500_001, 500_000, 999_999_999, 1_000_000_000, 86_400_000_000_000].iter().map(|k| BigInt::from(*k)).collect();
+        let n = if o.thorough { 20_000 } else { 1500 };
+        for _ in 0..n { let k = gen_ns(&mut g.rng); ks.push(if g.rng.chance(1, 2) { -k } else { k }); }
+        for k in ks {
+            let t = R::new(k.clone(), BigInt::from(NS));
+            let in_range = t.abs() <= R::from_integer(BigInt::from(MAX_SECS));
+            let num = Number::new_unit(Numeric::Rational(rink_core::types::BigRat::ratio(&rink_core::types::BigInt::from_str_radix(&t.numer().to_string(), 10).unwrap(), &rink_core::types::BigInt::from_str_radix(&t.denom().to_string(), 10).unwrap())), BaseUnit::new("s"));
+            let got = std::panic::catch_unwind(|| match rink_core::parsing::datetime::to_duration(&num) {
+                Ok(d) => format!("ns {}", d.num_seconds() as i128 * NS + d.subsec_nanos() as i128), Err(_) => "err".into() }).unwrap_or_else(|_| "panic".into());
+            let want = if in_range { format!("ns {}", k) } else { "err".into() };
+            g.out.case("to_duration", &format!("to_duration({} s)", fmt_r(&t)), Some(format!("todur {} s", fmt_r(&t))), &got, Some(("to-duration-exact", want)), None);
+            if in_range {
+                let k128 = k.to_i128().unwrap();
+                let d = chrono::Duration::seconds(k128.div_euclid(NS) as i64) + chrono::Duration::nanoseconds(k128.rem_euclid(NS) as i64);
+                let got = std::panic::catch_unwind(|| match rink_core::parsing::datetime::from_duration(&d) { Ok(n) => format!("dur {}", evalsess::fmt_numeric(&n.value)), Err(_) => "err".into() }).unwrap_or_else(|_| "panic".into());
+                g.out.case("from_duration", &format!("from_duration({} ns)", k), Some(format!("fromdur {}", k)), &got, Some(("from-duration-exact", format!("dur {}", fmt_r(&t)))), None);
+            }
+        }
+        // a number that is not a time
+        let got = std::panic::catch_unwind(|| match rink_core::parsing::datetime::to_duration(&Number::new_unit(Numeric::from(1), BaseUnit::new("m"))) { Ok(_) => "ns ?".to_string(), Err(_) => "err".into() }).unwrap_or_else(|_| "panic".into());
+        g.out.case("to_duration", "to_duration(1 m)", Some("todur 1/1 m".into()), &got, Some(("to-duration-exact", "err".into())), None);
+    }
+
+    // ---- fixed corpus: the witnesses of DESIGN.md §6 rows 6-8 and of everything found since
+    let d2020 = simple("2020-01-01", Dk::Ymd, 2020, 1, 1, None, Zs::None);
+    let d2020t = simple("2020-06-01 12:00 +01:00", Dk::Ymd, 2020, 6, 1, Some(tm(12, 0, None)), fixed(false, "01", Some("00")));
+    for (text, t) in [("0.0005 s", rat(1, 2000)), ("1 ns", rat(1, NS)), ("1.5 ms", rat(3, 2000)), ("1 ms", rat(1, 1000)), ("1 s", rat(1, 1)), ("1 hour", rat(3600, 1)), ("1 week", rat(604_800, 1)),
+        ("9223372036854774.9999995 s", rat(92_233_720_368_547_749_999_995, 10_000_000)), ("9223372036854775 s", rat(MAX_SECS as i128, 1)), ("9223372036854776 s", rat(MAX_SECS as i128 + 1, 1)), ("8300000000000 s", rat(8_300_000_000_000, 1))] {
+        g.arith_cases(&d2020, &Dur { text: text.into(), t });
+    }
+    for (neg, hh, mm) in [(false, "25", "00"), (true, "24", "00"), (false, "99", "99"), (false, "24", "00"), (false, "23", "59"), (true, "23", "59"), (true, "08", "00"), (false, "00", "00"), (false, "5", "00"), (false, "005", "00"), (false, "05", "0")] {
+        g.conv_case(&d2020t, neg, hh, mm);
+    }
+    for z in ["Europe/London", "UTC", "US/Pacific", "Asia/Kathmandu", "America/Port-au-Prince", "Etc/GMT+5"] { if let Ok(tz) = Tz::from_str(z) { g.tz_case(&d2020t, tz); } }
+    let corpus: Vec<Lit> = vec![
+        simple("2020-01-01 00:00:00.0000000000", Dk::Ymd, 2020, 1, 1, Some(tm(0, 0, Some(("00", Some("0000000000"))))), Zs::None),
+        simple("2020-01-01 00:00:00 +999999999:00", Dk::Ymd, 2020, 1, 1, Some(tm(0, 0, Some(("00", None)))), fixed(false, "999999999", Some("00"))),
+        simple("2020-01-01 00:00:00 +24:00", Dk::Ymd, 2020, 1, 1, Some(tm(0, 0, Some(("00", None)))), fixed(false, "24", Some("00"))),
+        simple("2020-01-01 00:00:00 +9999", Dk::Ymd, 2020, 1, 1, Some(tm(0, 0, Some(("00", None)))), fixed(false, "9999", None)),
+        simple("2020-01-01 00:00:00 -23:59", Dk::Ymd, 2020, 1, 1, Some(tm(0, 0, Some(("00", None)))), fixed(true, "23", Some("59"))),
+        simple("2021-02-30 10:00", Dk::Ymd, 2021, 2, 30, Some(tm(10, 0, None)), Zs::None),
+        simple("2021-02-30", Dk::Ymd, 2021, 2, 30, None, Zs::None),
+        simple("2021-02-28 10:60", Dk::Ymd, 2021, 2, 28, Some(tm(10, 60, None)), Zs::None),
+        simple("2021-02-28 10:59:75.5", Dk::Ymd, 2021, 2, 28, Some(tm(10, 59, Some(("75", Some("5"))))), Zs::None),
+        simple("2021-02-28 24:00", Dk::Ymd, 2021, 2, 28, Some(tm(24, 0, None)), Zs::None),
+        { let mut l = simple("Fri Jan 1 10:00 1970", Dk::Ctime, 1970, 1, 1, Some(tm(10, 0, None)), Zs::None); l.wd = 4; l },
+        simple("Thu Jan 1 10:00:01 1970", Dk::Ctime, 1970, 1, 1, Some(tm(10, 0, Some(("01", None)))), Zs::None),
+        { let mut l = simple("2021-366 10:00", Dk::Ordinal, 2021, 12, 31, Some(tm(10, 0, None)), Zs::None); l.ord = 366; l },
+        { let mut l = simple("2020-366 10:00", Dk::Ordinal, 2020, 12, 31, Some(tm(10, 0, None)), Zs::None); l.ord = 366; l },
+        simple("2020-W05 10:00", Dk::Unusable, 2020, 1, 1, Some(tm(10, 0, None)), Zs::None),
+        simple("--03-05 10:00", Dk::Unusable, 2020, 3, 5, Some(tm(10, 0, None)), Zs::None),
+        simple("2020-W05", Dk::Unusable, 2020, 1, 1, None, Zs::None),
+        simple("2020-03-29 01:30 Europe/London", Dk::Ymd, 2020, 3, 29, Some(tm(1, 30, None)), Zs::Named(Tz::Europe__London)),
+        simple("2020-10-25 01:30 Europe/London", Dk::Ymd, 2020, 10, 25, Some(tm(1, 30, None)), Zs::Named(Tz::Europe__London)),
+        simple("2021-03-14 02:30 America/New_York", Dk::Ymd, 2021, 3, 14, Some(tm(2, 30, None)), Zs::Named(Tz::America__New_York)),
+        simple("2021-11-07 01:30:00.5 America/New_York", Dk::Ymd, 2021, 11, 7, Some(tm(1, 30, Some(("00", Some("5"))))), Zs::Named(Tz::America__New_York)),
+        simple("1800-01-01 12:00 Europe/Amsterdam", Dk::Ymd, 1800, 1, 1, Some(tm(12, 0, None)), Zs::Named(Tz::Europe__Amsterdam)),
+        simple("2021-02-28 10:59:60", Dk::Ymd, 2021, 2, 28, Some(tm(10, 59, Some(("60", None)))), Zs::None),
+        simple("January 1, 1970", Dk::Ymd, 1970, 1, 1, None, Zs::None),
+        simple("44 March 15 bc", Dk::Ymd, -43, 3, 15, None, Zs::None),
+        simple("0001-01-01", Dk::Ymd, 1, 1, 1, None, Zs::None),
+        simple("9999-12-31 23:59:59.999999999", Dk::Ymd, 9999, 12, 31, Some(tm(23, 59, Some(("59", Some("999999999"))))), Zs::None),
+        simple("22:30:10.5 +02:00", Dk::Today, 2023, 11, 14, Some(tm(22, 30, Some(("10", Some("5"))))), fixed(false, "02", Some("00"))),
+        simple("10:30 pm", Dk::Today, 2023, 11, 14, Some(tm(22, 30, None)), Zs::None),
+        simple("22:30 Asia/Tokyo", Dk::Today, 2023, 11, 14, Some(tm(22, 30, None)), Zs::Named(Tz::Asia__Tokyo)),
+        simple("262142-12-31 23:59:59", Dk::Ymd, 262_142, 12, 31, Some(tm(23, 59, Some(("59", None)))), Zs::None),
+        simple("262143-01-01", Dk::Ymd, 262_143, 1, 1, None, Zs::None),
+        simple("-0001-01-01", Dk::Ymd, -1, 1, 1, None, Zs::None),
+    ];
+    for l in &corpus { g.lit_case("literal-corpus", l); }
+    let c0 = corpus[26].clone();
+    g.arith_cases(&c0, &Dur { text: "1 ns".into(), t: rat(1, NS) });
+    g.diff_case(&corpus[26], &corpus[25]);
+    g.diff_case(&d2020, &corpus[18]);
+    g.diff_case(&corpus[18], &corpus[20]);
+
+    // ---- every pattern x boundary dates, valid and invalid
+    let (n_lit, n_arith, n_diff, n_conv, n_bad) = if o.thorough { (60_000, 60_000, 40_000, 30_000, 20_000) } else { (3000, 2500, 1500, 1200, 1200) };
+    for _ in 0..n_lit { let zs = g.zones.clone(); let l = gen_valid(&mut g.rng, &zs); g.lit_case("literal", &l); }
+    for _ in 0..n_bad { let zs = g.zones.clone(); let l = gen_invalid(&mut g.rng, &zs); g.lit_case("literal-invalid", &l); }
+    // every month end of leap and common years, every pattern family: exhaustive calendar sweep
+    for y in [1i64, 4, 100, 400, 1900, 2000, 2023, 2024, 9999] {
+        for m in 1..=12 { for d in [1, 28, 29, 30, 31] {
+            for fam in 0..4 {
+                let mut l = simple("", if fam == 1 { Dk::Ctime } else { Dk::Ymd }, y, m, d, if fam >= 2 { Some(tm(10, 0, None)) } else { None }, Zs::None);
+                if fam == 1 && d <= month_len(y, m) { l.wd = (days_from_civil(y, m, d) + 3).rem_euclid(7); }
+                if fam == 3 { l.dk = Dk::Ordinal; if d > month_len(y, m) { continue; } l.ord = days_from_civil(y, m, d) - days_from_civil(y, 1, 1) + 1; }
+                render(&mut g.rng, &mut l);
+                g.lit_case("literal-calendar", &l);
+            }
+        } }
+    }
+
+    // ---- arithmetic
+    for i in 0..n_arith {
+        let zs = g.zones.clone();
+        let l = gen_valid(&mut g.rng, &zs);
+        let d = if i % 4 == 3 { let u = Units { list: g.units.list.clone() }; dur_free(&mut g.rng, &u) } else { let k = gen_ns(&mut g.rng); let u = Units { list: g.units.list.clone() }; dur_of_ns(&mut g.rng, &u, &k) };
+        if d.t.is_zero() { continue; }
+        g.arith_cases(&l, &d);
+    }
+    for _ in 0..n_diff { let zs = g.zones.clone(); let a = gen_valid(&mut g.rng, &zs); let b = gen_valid(&mut g.rng, &zs); g.diff_case(&a, &b); }
+
+    // ---- conversions
+    for i in 0..n_conv {
+        let zs = g.zones.clone();
+        let l = gen_valid(&mut g.rng, &zs);
+        if i % 3 == 0 {
+            let tz = if g.rng.chance(1, 2) { *g.rng.pick(&all_zones) } else { *g.rng.pick(&zs) };
+            g.tz_case(&l, tz);
+        } else {
+            let (hh, mm) = match g.rng.below(8) { 0 => (24, 0), 1 => (23, 59), 2 => (0, 0), 3 => (g.rng.range(24, 99), g.rng.range(0, 99)), 4 => (g.rng.range(0, 23), g.rng.range(60, 99)), _ => (g.rng.range(0, 23), g.rng.range(0, 59)) };
+            let neg = g.rng.chance(1, 2);
+            g.conv_case(&l, neg, &format!("{:02}", hh), &format!("{:02}", mm));
+        }
+    }
+
+    // ---- other clocks: time-only literals across the date line, and zone transitions on "today"
+    for (secs, what) in [(1_582_934_399i64, "2020-02-28T23:59:59Z"), (1_583_020_800, "2020-03-01T00:00:00Z"), (1_609_459_199, "2020-12-31T23:59:59Z"), (951_782_400, "2000-02-29T00:00:00Z")] {
+        let _ = what;
+        g.set_now(secs);
+        for (h, mi) in [(0, 0), (23, 59), (12, 30)] {
+            for z in [Zs::None, fixed(false, "14", Some("00")), fixed(true, "12", Some("00")), fixed(false, "0530", None), fixed(true, "23", Some("59")), Zs::Named(Tz::Pacific__Kiritimati), Zs::Named(Tz::Pacific__Pago_Pago)] {
+                let mut l = simple("", Dk::Today, 2020, 1, 1, Some(tm(h, mi, None)), z);
+                render(&mut g.rng, &mut l);
+                g.lit_case("literal-clock", &l);
+            }
+        }
+    }
+    for (secs, zone, h, mi) in [(1_585_483_200i64, Tz::Europe__London, 1, 30), (1_603_627_200, Tz::Europe__London, 1, 30), (1_615_723_200, Tz::America__New_York, 2, 30), (1_636_286_400, Tz::America__New_York, 1, 30), (1_585_483_200, Tz::Europe__London, 12, 0)] {
+        g.set_now(secs);
+        let mut l = simple("", Dk::Today, 2020, 1, 1, Some(tm(h, mi, None)), Zs::Named(zone));
+        render(&mut g.rng, &mut l);
+        g.lit_case("literal-clock-transition", &l);
+    }
+    g.set_now(NOW);
+
+    // ---- malformed glue: arbitrary junk between # # must give an answer or an error
+    let n_junk = if o.thorough { 30_000 } else { 2000 };
+    let alphabet = ["2020", "01", "1", "12", "00", "60", "99", "-", "-", ":", ":", " ", " ", "+", ".", "T", "W", "am", "pm", "bc", "Jan", "Mon", "UTC", "Europe/London", "0000000000", "99999999999", ",", "#"];
+    for _ in 0..n_junk {
+        let n = 1 + g.rng.below(10);
+        let body: String = (0..n).map(|_| *g.rng.pick(&alphabet)).collect();
+        let q = format!("#{}", body);
+        let got = eval(&mut g.ctx, &q, None);
+        let got = if got == "panic" { got } else { "answered".to_string() };
+        g.out.case("junk", &q, None, &got, None, None);
+    }
+
+    g.out.req.flush().unwrap(); g.out.imp.flush().unwrap(); g.out.orc.flush().unwrap();
+    let st = json!({
+        "total": g.out.total, "model_lines": g.out.model_lines, "distinct": g.out.distinct.len(), "oracle_checked": g.out.oracle_checked, "violations": g.out.nviol,
+        "kinds": g.out.kinds, "answers": g.out.answers, "laws_violated": g.out.laws, "samples": g.out.samples, "variant": v,
+        "time_units": g.units.list.iter().map(|(n, _)| n.clone()).collect::<Vec<_>>(), "zones_in_literals": g.zones.len(), "zones_as_targets": all_zones.len(),
+        "seed": o.seed, "tier": if o.thorough { "thorough" } else { "quick" },
+    });
+    util::write_json(&format!("{}/stats.json", o.out), &st);
 }
